@@ -22,5 +22,7 @@ MANIFEST = dict(
          "string (texts, parsed positions bit for bit, reserves, hash), and a Go oracle checks the round-trip clauses of the property directly.",
     ref='5.10', technique='Coq proof (both round-trip directions, all layers) + model/implementation differential + round-trip oracle',
     note="Trusted: Coq kernel, extraction, transcription of ptn/tps.go and tak.FromSquares (validated by execution). "
-         "Not proved: that every position reachable by Move satisfies reserves_match_board (rep_ok follows from the C01 invariant pos_ok); "
-         "negative ply is excluded (FormatTPS/ParseTPS do not round-trip it); black_wins_ties is not part of TPS and comes back false.")
+         "Reachable positions: tps_round_trip_reachable / reserves_match_reachable prove that every position replayed from tak.New with default "
+         "counts satisfies the hypotheses (canonical representation via the C01 invariant; the rules conserve reserve + pieces on the board), "
+         "under the C01 side condition that no stack on the way exceeds the 64 bits of the stack word (vacuous on 3x3..6x6). "
+         "Negative ply is excluded (FormatTPS/ParseTPS do not round-trip it); black_wins_ties is not part of TPS and comes back false.")
